@@ -38,7 +38,7 @@ def rgba(c):
     return RGBA[c]
 
 
-CONFIGS = [((21, 21), 1, None), ((21, 21), 2, 0), ((11, 11), 3, None), ((11, 11), 2.7, 1), ((13, 13), 1, 3)]
+CONFIGS = [((21, 21), 1, None), ((21, 21), 2, 0), ((11, 11), 3, None), ((11, 11), 2.7, 1), ((13, 13), 1, 3), ((11, 11), 8, 1)]      # the last one is 104 = 13 * 8 pixels wide
 
 
 def _rows_asked(rs, scale, border, which='matrix_iter'):
@@ -245,7 +245,7 @@ def _typed(fx, size, kw):
     return lambda r, c, v: (darks[(r * 3 + c) % len(darks)] if v else lights[(r * 3 + c) % len(lights)])
 
 
-@rule('C09', 'R4', 19, 'PNG: signature, chunk = length | type+data | CRC, IHDR = picture size / depth / colour type, chunk order, scanlines at the bit depth; the decoded picture is the symbol at the requested scale and border')
+@rule('C09', 'R4', 26, 'PNG: signature, chunk = length | type+data | CRC, IHDR = picture size / depth / colour type, chunk order, scanlines at the bit depth; the decoded picture is the symbol at the requested scale and border')
 def r4(fx):
     it = Interp(max_steps=80_000_000)
     fn = fx.fn('writers', 'write_png')
@@ -253,6 +253,8 @@ def r4(fx):
         for kw in ({}, {'dark': 'red', 'light': None}, {'finder_dark': 'blue', 'data_light': '#eee', 'timing_dark': (10, 20, 30), 'format_light': 'yellow', 'quiet_zone': 'aliceblue'}):
             tag = f'{kw} size={size[0]} scale={scale} border={border}'
             yield _png_ob(fx, it, fn, tag, size, scale, border, kw)
+    for kw in ({'dark': 'red', 'light': 'yellow'}, {'light': None}, {'dark': (255, 0, 0, 128)}, {'finder_dark': 'blue', 'data_light': None}):
+        yield _png_ob(fx, it, fn, f'dpi=300 {kw}', (11, 11), 2, 1, dict(kw, dpi=300))
     m, rec, rs, zs = _run(fx, it, 'write_png', (11, 11), 1, 0, kw={'dpi': 300, 'compresslevel': 3}, typed=_typed(fx, (11, 11), {}))
     try:
         png = render.decode_png(rec.data())
